@@ -44,6 +44,11 @@ EVENTS = {
     'e_tup2': lambda: (val('v1'), val('v2')),
     'e_bin': lambda: val('b1'),
     'e_tbin': lambda: (val('v1'), val('b1')),
+    'e_f': lambda: val('f1'),
+    'e_es': lambda: val('es'),
+    'e_el': lambda: val('el'),
+    'e_ed': lambda: val('ed'),
+    'e_h': lambda: val('h1'),
     'e_raise': None,   # raises Boom
 }
 # 'e_unh' has no handler anywhere
@@ -437,6 +442,8 @@ class SrvAdapter:
         self._track_owned()
         if self.tap.seen and res == ['ok']:
             res = ['contained'] + list(self.tap.seen)
+            if act == 'RxRaw':
+                res = ['contained', 'X']   # which exception is immaterial
         if self.bgexc and res == ['ok']:
             res = ['bgexc'] + list(self.bgexc)
         rset = []
@@ -512,7 +519,8 @@ class SrvAdapter:
         if a['kind'] == 'hdr':
             ptype = 5 if a['ty'] == 'BINARY_EVENT' else 6
             id = None if a['id'] < 0 else a['id']
-            data = [{'_placeholder': True, 'num': i} for i in range(a['n'])]
+            data = [{'_placeholder': True, 'num': i}
+                    for i in range(min(a['n'], 3))]
             if ptype == 5:
                 data = [a['ev']] + data
             text = str(ptype) + str(a['n']) + '-'
@@ -762,4 +770,22 @@ class SrvAdapter:
         return sorted(found)
 
 
-RAW_FRAMES = {}
+# hostile frames of the exhaustive C12 configuration, by expected class
+RAW_FRAMES = {
+    # contained: the server's message callback raises, engine.io contains it
+    'empty': '', 'letter': 'x', 'type9': '9', 'type7': '7["a"]',
+    'brackets': '[]', 'connerr': '4{"message":"x"}', 'badjson': '2[',
+    'badjson2': '2{"a"', 'dictpayload': '2{"a":1}', 'emptylist': '2[]',
+    'numpayload': '21', 'longid': '2' + '1' * 101 + '["e_v"]',
+    'nsnocomma': '2/a', 'dashfirst': '2-["e_v"]',
+    'deepjson': '2' + '[' * 2000 + ']' * 2000, 'bytes': b'\x00\x01',
+    'count11': '512345678901-["e_v"]',
+    # ignored: decodes, but nothing is responsible / nothing happens
+    'acknum': '31', 'strpayload': '2"abc"', 'intevent': '2[5]',
+    'nullevent': '2[null,1]', 'ackunknownns': '3/zzz,1["v1"]',
+    'evunknownns': '2/zzz,7["e_v","v1"]',
+}
+RAW_CLASS = {k: 'contained' for k in RAW_FRAMES}
+for _k in ('acknum', 'strpayload', 'intevent', 'nullevent', 'ackunknownns',
+           'evunknownns'):
+    RAW_CLASS[_k] = 'ignored'
